@@ -220,6 +220,63 @@ func main() {
 		}
 		return src, "squares [" + strings.Join(sq, " ") + "]\n"
 	}},
+	{"worker-forms", func(t *rapid.T) (string, string) {
+		// Workers started by one go statement are alive together (they wait for a
+		// gate) and work on their own variables: a named result, several of them,
+		// a local variable, the fields of their own receiver. The function is a
+		// package-level function, a method with a value or a pointer receiver, a
+		// method value, or a function literal with named results.
+		w, m := n(t, 2, 12, "w"), n(t, 1, 40, "m")
+		form := n(t, 0, 7, "form")
+		vars := n(t, 0, 2, "vars")
+		sig, pre, upd, fin := "(acc int)", "", "acc += id*1000 + i", "out[id] = acc"
+		switch vars {
+		case 1:
+			sig, upd, fin = "(acc, cnt int)", "acc += id*1000 + i\n\t\tcnt++", "out[id] = acc + cnt - n"
+		case 2:
+			sig, pre, upd, fin = "int", "acc := 0\n\t", "acc += id*1000 + i", "out[id] = acc\n\treturn acc"
+		}
+		if vars != 2 {
+			fin += "\n\treturn"
+		}
+		body := fmt.Sprintf("{\n\tdefer wg.Done()\n\t%s<-gate\n\tfor i := 0; i < n; i++ {\n\t\t%s\n\t}\n\t%s\n}", pre, upd, fin)
+		var decl, spawn, setup string
+		switch form {
+		case 0, 1:
+			decl = "func work(id, n int, gate chan bool, out []int, wg *sync.WaitGroup) " + sig + " " + body + "\n\n"
+			spawn = "go work(w, N, gate, out, &wg)"
+		case 2: // value receiver
+			decl = "type worker struct{ id int }\n\nfunc (k worker) work(n int, gate chan bool, out []int, wg *sync.WaitGroup) " + sig + " " + strings.Replace(body, "{\n", "{\n\tid := k.id\n", 1) + "\n\n"
+			spawn = "go worker{w}.work(N, gate, out, &wg)"
+		case 3: // pointer receiver, own element
+			decl = "type worker struct{ id int }\n\nfunc (k *worker) work(n int, gate chan bool, out []int, wg *sync.WaitGroup) " + sig + " " + strings.Replace(body, "{\n", "{\n\tid := k.id\n", 1) + "\n\n"
+			setup = "\tws := make([]worker, W)\n\tfor i := range ws {\n\t\tws[i].id = i\n\t}\n"
+			spawn = "go ws[w].work(N, gate, out, &wg)"
+		case 4: // pointer receiver on the iteration variable of a range loop
+			decl = "type worker struct{ id int }\n\nfunc (k *worker) work(n int, gate chan bool, out []int, wg *sync.WaitGroup) " + sig + " " + strings.Replace(body, "{\n", "{\n\tid := k.id\n", 1) + "\n\n"
+			setup = "\tws := make([]worker, W)\n\tfor i := range ws {\n\t\tws[i].id = i\n\t}\n"
+			spawn = "RANGE"
+		case 5: // method value
+			decl = "type worker struct{ id int }\n\nfunc (k worker) work(n int, gate chan bool, out []int, wg *sync.WaitGroup) " + sig + " " + strings.Replace(body, "{\n", "{\n\tid := k.id\n", 1) + "\n\n"
+			spawn = "f := worker{w}.work\n\t\tgo f(N, gate, out, &wg)"
+		case 6: // function literal with the same results
+			spawn = "go func(id, n int) " + sig + " " + strings.ReplaceAll(body, "\n", "\n\t\t") + "(w, N)"
+		default: // function value in a variable
+			decl = "func work(id, n int, gate chan bool, out []int, wg *sync.WaitGroup) " + sig + " " + body + "\n\n"
+			setup = "\tf := work\n"
+			spawn = "go f(w, N, gate, out, &wg)"
+		}
+		loop := "\tfor w := 0; w < W; w++ {\n\t\twg.Add(1)\n\t\t" + spawn + "\n\t}\n"
+		if spawn == "RANGE" {
+			loop = "\tfor _, k := range ws {\n\t\twg.Add(1)\n\t\tgo k.work(N, gate, out, &wg)\n\t}\n"
+		}
+		src := hdr + decl + fmt.Sprintf("func main() {\n\tconst W, N = %d, %d\n\tout := make([]int, W)\n\tgate := make(chan bool)\n\tvar wg sync.WaitGroup\n%s%s\tclose(gate)\n\twg.Wait()\n\tfmt.Println(\"forms\", out)\n}\n", w, m, setup, loop)
+		var want []string
+		for id := 0; id < w; id++ {
+			want = append(want, fmt.Sprint(id*1000*m+m*(m-1)/2))
+		}
+		return src, "forms [" + strings.Join(want, " ") + "]\n"
+	}},
 	{"select-default-poll", func(t *rapid.T) (string, string) {
 		w, m := n(t, 1, 8, "w"), n(t, 1, 30, "m")
 		src := hdr + fmt.Sprintf(`func main() {
@@ -633,7 +690,7 @@ func init() {
 		ID:    "C08",
 		Level: "exploration",
 		Race:  true,
-		Rule: "case = (a) a race-free script from a template whose output is schedule-independent (pipeline of stages, workers with private channels in one select statement, mutex counter with map, producer/consumers with close+range, goroutines capturing the loop variable, select-with-default polling) with drawn goroutine/message/buffer counts, or (b) 2-16 host goroutines calling the same interpreted named function, closure factory, method and multi-result function with distinct arguments, or (c) 2-6 interpreters running different templates in parallel; crossed with GOMAXPROCS in {1,2,4,16} and a Gosched injected every n-th interpreted operation through the step hook; oracle: the analytically known output / per-goroutine results, no stuck run, and no race-detector report with a frame in yaegi/interp (binary built with -race, GORACE log read after every case); every case is non-trivial (>= 2 goroutines inside the same interpreted code); distinct by full case content",
+		Rule:  "case = (a) a race-free script from a template whose output is schedule-independent (pipeline of stages, workers with private channels in one select statement, mutex counter with map, producer/consumers with close+range, goroutines capturing the loop variable, select-with-default polling) with drawn goroutine/message/buffer counts, or (b) 2-16 host goroutines calling the same interpreted named function, closure factory, method and multi-result function with distinct arguments, or (c) 2-6 interpreters running different templates in parallel; crossed with GOMAXPROCS in {1,2,4,16} and a Gosched injected every n-th interpreted operation through the step hook; oracle: the analytically known output / per-goroutine results, no stuck run, and no race-detector report with a frame in yaegi/interp (binary built with -race, GORACE log read after every case); every case is non-trivial (>= 2 goroutines inside the same interpreted code); distinct by full case content",
 		Assumptions: []string{
 			"schedules are sampled (GOMAXPROCS, injected yields), not enumerated; the race detector adds happens-before reasoning",
 			"scripts are data-race-free by construction, so a reported race with interpreter frames is attributed to the interpreter",
